@@ -100,6 +100,7 @@ class Powertrain:
 
         self.__elements = tuple(elements)
         self.__time = []
+        self.__initial_pwm = None
         self.__self_locking = False
         for element in self.elements:
             if isinstance(element, WormGear):
@@ -203,6 +204,9 @@ class Powertrain:
                 f"Parameter 'instant' must be instances of {Time.__name__!r}."
             )
 
+        if not self.__time:
+            self.__initial_pwm = getattr(self.elements[0], 'pwm', None)
+
         self.__time.append(instant)
 
     def reset(self) -> None:
@@ -241,7 +245,10 @@ class Powertrain:
                     element.electric_current = element.time_variables[
                         'electric current'
                     ][0]
-                element.pwm = element.time_variables['pwm'][0]
+                if self.__initial_pwm is not None:
+                    element.pwm = self.__initial_pwm
+                else:
+                    element.pwm = element.time_variables['pwm'][0]
             if isinstance(element, GearBase):
                 if element.tangential_force_is_computable:
                     element.tangential_force = element.time_variables[
